@@ -119,6 +119,12 @@ Section C11.
     intros H. destruct (reverse_correct a H) as (l & E). exists l. split; auto.
     eapply reverse_log; eauto.
   Qed.
+
+  (** Fuel is a device of the model only: once a run returns, any larger
+      fuel gives the same array and the same callback log. *)
+  Theorem C11_sort_result_independent_of_fuel sel extra extra' rnd (a : list A) r :
+    sort cmp sel extra rnd a = Ok r -> extra <= extra' -> sort cmp sel extra' rnd a = Ok r.
+  Proof. exact (sort_extra_irrelevant cmp sel extra extra' rnd a r). Qed.
 End C11.
 
 (** Non-vacuity: the contract is satisfiable (integer keys, comparison by
@@ -154,3 +160,4 @@ Print Assumptions C11_heap_sort.
 Print Assumptions C11_search.
 Print Assumptions C11_find_first.
 Print Assumptions C11_reverse.
+Print Assumptions C11_sort_result_independent_of_fuel.
